@@ -39,6 +39,8 @@ def main():
         def place_demo():
             for f in meta.get("demo_files", []) or []:
                 src = os.path.join(mdir, os.path.basename(f))
+                if not os.path.exists(src):
+                    src = os.path.join(mdir, f)
                 dst = os.path.join(wt, f)
                 if os.path.exists(src) and not os.path.exists(dst) and not f.startswith("_mut"):
                     os.makedirs(os.path.dirname(dst), exist_ok=True)
